@@ -77,6 +77,7 @@ Fixpoint rj_eqb (a b : rjson) {struct a} : bool :=
   | JDur x, JDur y => durtext_eqb x y
   | JList x, JList y | JTuple x, JTuple y => list_eqb (fun u w => rj_eqb u w) x y
   | JObj x, JObj y => list_eqb (fun u w => txt_eqb (fst u) (fst w) && rj_eqb (snd u) (snd w)) x y
+  | JPairs x, JPairs y => list_eqb (fun u w => rj_eqb (fst u) (fst w) && rj_eqb (snd u) (snd w)) x y
   | JTyped g x, JTyped g' y => tag_eqb g g' && rj_eqb x y
   | JDseDur a1 a2 a3, JDseDur b1 b2 b3 => rj_eqb a1 b1 && rj_eqb a2 b2 && rj_eqb a3 b3
   | _, _ => false
